@@ -195,7 +195,7 @@ class C17(Property):
         compat = o_compatible(a, b)
         equiv, _ = o_equivalent(a, b)
         exp = o_convert(x, a, b) if compat else None
-        how = rnd.choice(["to_units", "prepare", "link", "link"])
+        how = rnd.choice(["to_units", "prepare", "link", "link", "link_v2g"])
         out.count("conversion_" + how)
         try:
             if how == "to_units":
@@ -207,6 +207,20 @@ class C17(Property):
                 mk = np.zeros(4, bool) if rnd.random() < 0.4 else fm.Mask.FLEX
                 info = fm.Info(time=None, grid=fm.NoGrid(data_shape=(4,)), units=b, mask=mk)
                 y = dt.prepare(fm.UNITS.Quantity(x.copy(), a), info)[0]
+            elif how == "link_v2g":
+                # the link crosses a shipped adapter that rewrites the metadata (one value spread over a grid)
+                from datetime import datetime
+
+                t0 = datetime(2000, 1, 1)
+                g = fm.UniformGrid((3, 3))
+                o = fm.Output(name="o", time=t0, grid=fm.NoGrid(), units=a)
+                i = fm.Input(name="i", time=t0, grid=g, units=b)
+                o >> fm.adapters.ValueToGrid(g) >> i
+                i.ping()
+                i.exchange_info()
+                o.push_data(float(x[0]), t0)
+                y = i.pull_data(t0)[0].ravel()
+                x, exp = x[:1].astype(float).repeat(4), (exp[:1].repeat(4) if exp is not None else None)
             else:
                 from datetime import datetime
 
@@ -252,7 +266,7 @@ class C17(Property):
             out.viol("wrong_conversion", f"{how}: {x.tolist()} {a!r} -> {b!r} gave {got.tolist()}, dimensional analysis {exp.tolist()}", a=a, b=b)
 
     def coverage_gaps(self, counters, tier):
-        need = ["integer_payloads", "compatible_queries", "equivalent_queries", "conversion_link", "conversion_prepare", "conversion_to_units",
+        need = ["integer_payloads", "compatible_queries", "equivalent_queries", "conversion_link", "conversion_link_v2g", "conversion_prepare", "conversion_to_units",
                 "incompatible_refused", "equivalent_relabels", "true_conversions"]
         return [f"{k} never observed" for k in need if not counters.get(k)]
 
